@@ -240,6 +240,8 @@ def install(I):
     def _bytes(ex, a, k):
         if not a:
             return VBytes(z3.Empty(smt.Bytes))
+        if len(a) == 1 and isinstance(a[0], VBytes):
+            return a[0]          # bytes(b) of a bytes value is an equal bytes value
         raise Undecided('bytes(x)')
 
     @reg('str')
